@@ -9,9 +9,8 @@ Scopes, function objects, arrays and lazy arguments are shared by reference in G
 are cells of explicit tables here. A Go error return is `Fault.err`; a Go panic that
 reaches the host is `Fault.panic`; fuel exhaustion is `Fault.timeout`. State changes made
 before an error stay (Go mutates in place), which is why the monad is `ExceptT` over
-`StateM` and not the other way round. Stack cells are `Option`s: before fix C01-01
-`Stack.TruncateToSize` could *grow* a stack with nil elements (`none`), and touching one is
-the host panic it is in Go; `Props/C01` proves that no `none` cell arises any more.
+`StateM` and not the other way round. `Stack.TruncateToSize` may *grow* a stack with nil
+elements; they are `none` here and touching one is the host panic it is in Go.
 -/
 import ZygoVerif.Model.Gen
 import ZygoVerif.Model.LazySrc
@@ -68,11 +67,9 @@ def hostPanic {α} : M α := throw .panic
 
 /-! ## Stacks -/
 
-/-- `TruncateToSize` on a top-first list: drop from the top; a stack that is already shorter
-stays as it is (after fix C01-01; `Model/LegacyVM.lean` keeps the version that padded nil
-elements on top). -/
+/-- `TruncateToSize` on a top-first list: drop from the top, or pad nil elements on top. -/
 def truncate {α} (l : List (Option α)) (n : Nat) : List (Option α) :=
-  l.drop (l.length - n)
+  if l.length ≥ n then l.drop (l.length - n) else List.replicate (n - l.length) none ++ l
 
 def pushData (v : Val) : M Unit := modify (fun s => { s with data := some v :: s.data })
 
